@@ -286,7 +286,8 @@ def install(mon, reach):
 
 
 # ----------------------------------------------------------------------------- generators
-CHEAP = {"X", "Y", "Z", "I", "S", "CNOT", "CZ", "SWAP", "PHASE", "RZ", "CPHASE", "ZZ", "Delay"}
+CHEAP = {"X", "Y", "Z", "I", "S", "CNOT", "CZ", "SWAP", "Delay"}
+NO_EXP = {"T", "RZ"}  # sympy's exp of these matrices (unevaluated exp(I*x) entries) does not return
 
 
 def _may_append(chain, m, base_nq, cheap, jordan_ok=True, max_jordan_width=4, dense=False):
@@ -442,7 +443,7 @@ def run_case(ctx):
         allow = list(all_mods)
         kind_pairs = [(a, b) for a in all_mods for b in all_mods if not (a == "exp" and b in ("exp", "power_frac"))]
         focus = kind_pairs[(ctx.index // 3) % len(kind_pairs)] if rng.random() < 0.7 else None
-        if focus and name == "T" and "exp" in focus:
+        if focus and name in NO_EXP and "exp" in focus:
             focus = None
         jordan = rng.random() < 0.6 or bool(focus and set(focus) & {"exp", "power_frac"})
         if not jordan:
@@ -450,8 +451,8 @@ def run_case(ctx):
         # special angles (multiples of pi/4) make sympy's Jordan form of the phase gates' matrices
         # pathologically slow (RZ(pi/4) = T up to phase): chains with exp / fractional powers use generic angles
         g, d = GC.rand_builtin(rng, max_nq=2, names=[name], special=0.0 if jordan else 0.5)
-        if name == "T":
-            allow.remove("exp")  # T.exp.matrix never returns
+        if name in NO_EXP and "exp" in allow:
+            allow.remove("exp")
         chain = _rand_chain(rng, g.num_qubits, max_width, max_len, allow, cheap=name in CHEAP,
                             max_jordan_width=1 if name == "U3" else 4, focus=focus)
         ctx.describe(f"{d}.{_chain_str(chain)}", _nontrivial(chain))
@@ -487,7 +488,8 @@ def run_case(ctx):
         p1 = tuple(GC.rand_angle(rng, 0.0) for _ in range(npar))
         p2 = tuple(GC.rand_angle(rng, 0.0) for _ in range(npar))
         g1, g2 = factory(*p1), factory(*p2)
-        allow = ["dagger", "controlled", "power_int", "power_frac"] + (["exp"] if g1.num_qubits == 1 else [])
+        allow = ["dagger", "controlled", "power_int", "power_frac"] + (
+            ["exp"] if g1.num_qubits == 1 and name not in NO_EXP and name != "custom" else [])
         chain = _rand_chain(rng, g1.num_qubits, max_width, max_len, allow, cheap=name in CHEAP,
                             dense=(name == "custom"))
         ctx.describe(f"replace {name}{p1}->{p2}.{_chain_str(chain)}", _nontrivial(chain))
